@@ -123,7 +123,7 @@ TB_TEMPLATE = TB_COMMON + [
 ]
 TEMPLATE_RULE = "template stream: (input template, output template) pairs of 0-4 columns over 9 formats x 19 raw types (+none), sub-rows to depth 2, same column names on both sides in 60% of the cases (as jl builds them), one side empty or unrelated otherwise; per pair 3-6 input lines (declared keys in any order, missing and extra keys, numbers of every spelling and magnitude, look-alike strings: numeric, boolean, base64, dates, RFC 3339; nulls, arrays, objects; 3/14 of the lines not one object) read by Importer.ReadOne and written by Exporter.Export with a recording writer, plus 2 CreateRow inputs (slice, map, Row, JSON text as string / []byte, other); row state after import, emitted bytes and error classes compared with the model; plus the typed round-trip oracle over the 86 typed pairings of the lossless table; plus the directed single-column sweep (every output descriptor: 9 formats x 20 raw types, x five input templates x ~110 values incl. numbers beyond float64, fractional / exponent / 1e14 timestamps, one-digit / slash / dot dates, year-boundary instants, control characters, trailing line breaks, arrays and objects out of alphabetical order) through the C01 / C03 / C04 / C05 oracles; columns built through the generic builder and through the dedicated WithX / WithMappedX methods; a case is distinct by (templates, probes)"
 PROPS.update({
-    "C03": {"streams": [{"name": "template"}], "rule": TEMPLATE_RULE, "trusted_base": TB_TEMPLATE,
+    "C03": {"streams": [{"name": "template"}, {"name": "jl", "focus": "C03"}], "rule": TEMPLATE_RULE + " ++ the jl stream (the real command with row.yml / inline templates against the library streamer on the equivalent templates declared in the same order: jl must order, keep and drop columns alike)", "trusted_base": TB_TEMPLATE,
             "assumptions": ["order oracle judged for one column list shared by both templates (as jl builds them) or no input template"]},
     "C04": {"streams": [{"name": "template", "zones": ["UTC", "Pacific/Kiritimati", "Pacific/Pago_Pago", "America/St_Johns", "Europe/Paris"], "zones_quick": ["UTC", "Pacific/Kiritimati"]}],
             "rule": TEMPLATE_RULE + "; run under UTC and under zones far east / far west of it (a date-time is rendered in the process zone: the year that counts is the one written)", "trusted_base": TB_TEMPLATE, "assumptions": []},
